@@ -1,7 +1,7 @@
 (* RelayProofs.v -- the copy loops forward exactly what they read (Model/Relay.v), and the upload direction of a
    tunnel composed with the pipe of C01. *)
 From Coq Require Import List NArith Lia Bool.
-From AnyTLS Require Import Bytes Cmd Generated Frame Reader Session FrameProofs ReaderProofs SessTable SessHandle SessRecv SessPipe Relay.
+From AnyTLS Require Import Bytes Cmd Generated FactsRelay Frame Reader Session FrameProofs ReaderProofs SessTable SessHandle SessRecv SessPipe Relay.
 Import ListNotations.
 Import Sess.
 Open Scope N_scope.
@@ -38,7 +38,7 @@ Proof.
       * fold (lp_run (lp_stop s) es). rewrite lp_run_stopped by reflexivity. cbn. symmetry. apply app_nil_r.
       * destruct w.
         -- match goal with |- lout (fold_left lp_iter es ?s1) = _ => fold (lp_run s1 es); rewrite (IH s1) by reflexivity end.
-           cbn [lout]. rewrite firstn_fill, <- app_assoc. reflexivity.
+           cbn [lout]. unfold slice_len. rewrite relay_sinks_exact, firstn_fill, <- app_assoc. reflexivity.
         -- match goal with |- lout (fold_left lp_iter es ?s1) = _ => fold (lp_run s1 es); rewrite (lp_run_stopped es s1) by reflexivity end.
            cbn. symmetry. apply app_nil_r.
     + fold (lp_run (lp_stop s) es). rewrite lp_run_stopped by reflexivity. cbn. symmetry. apply app_nil_r.
